@@ -56,8 +56,9 @@ class NodeData:
     children: list[Node] = field(default_factory=list, repr=False)
     metadata: dict[str, Any] = field(default_factory=dict)
 
-    def _to_serial(self, node: Node) -> SerialOp:
-        o = self.op._to_serial(self.parent if self.parent else node)
+    def _to_serial(self, parent: Node) -> SerialOp:
+        # `parent` is the (renumbered) parent node, or the node itself for the root
+        o = self.op._to_serial(parent)
 
         return SerialOp(root=o)  # type: ignore[arg-type]
 
@@ -664,20 +665,26 @@ class Hugr(Mapping[Node, NodeData], Generic[OpVarCov]):
 
     def _to_serial(self) -> SerialHugr:
         """Serialize the HUGR."""
-        node_it = [node for node in self._nodes if node is not None]
+        live = [(idx, node) for idx, node in enumerate(self._nodes) if node is not None]
+        # non contiguous indices will be erased: map every live index to its
+        # position in the serialized node list
+        rekey = {idx: pos for pos, (idx, _) in enumerate(live)}
+
+        def _serialize_node(idx: NodeIdx, node: NodeData) -> SerialOp:
+            parent = node.parent.idx if node.parent else idx
+            return node._to_serial(Node(rekey[parent], {}))
 
         def _serialize_link(
             link: tuple[_SO, _SI],
         ) -> tuple[tuple[NodeIdx, PortOffset], tuple[NodeIdx, PortOffset]]:
             src, dst = link
             s, d = self._constrain_offset(src.port), self._constrain_offset(dst.port)
-            return (src.port.node.idx, s), (dst.port.node.idx, d)
+            return (rekey[src.port.node.idx], s), (rekey[dst.port.node.idx], d)
 
         return SerialHugr(
-            # non contiguous indices will be erased
-            nodes=[node._to_serial(Node(idx, {})) for idx, node in enumerate(node_it)],
+            nodes=[_serialize_node(idx, node) for idx, node in live],
             edges=[_serialize_link(link) for link in self._links.items()],
-            metadata=[node.metadata if node.metadata else None for node in node_it],
+            metadata=[node.metadata if node.metadata else None for _, node in live],
         )
 
     def _constrain_offset(self, p: P) -> PortOffset:
